@@ -76,7 +76,7 @@ Proof.
     - apply catalogued_bound. exact I'. }
   pose proof (Inv_chk_inv s' (rescan s' held) I') as V0.
   pose proof (chk_data_step c p s s' r held E Hb) as V1.
-  destruct (all_true (verdicts p (code_of r) (observe s held) (observe s' (rescan s' held)))).
+  destruct (all_true (verdicts p (is_ok r) (observe s held) (observe s' (rescan s' held)))).
   - destruct (run_trace c t s' (rescan s' held)) as [rest sf] eqn:ER. cbn [fst] in Isr. destruct Isr as [<-|Isr].
     + cbn [sr_flags verdicts nth]. auto.
     + apply (IH s' (rescan s' held) I' Hb' sr). rewrite ER. exact Isr.
@@ -98,7 +98,7 @@ Lemma run_trace_final_Inv c : fix_a c = true -> fix_b c = true ->
 Proof.
   intros FA FB. induction ops as [|p t IH]; intros s held I; cbn [run_trace snd]; [exact I|].
   destruct (step c p s) as [s' r] eqn:E. pose proof (step_Inv c p s s' r FA FB I E) as I'.
-  destruct (all_true (verdicts p (code_of r) (observe s held) (observe s' (rescan s' held)))).
+  destruct (all_true (verdicts p (is_ok r) (observe s held) (observe s' (rescan s' held)))).
   - specialize (IH s' (rescan s' held) I'). destruct (run_trace c t s' (rescan s' held)) as [rest sf]. exact IH.
   - exact I'.
 Qed.
